@@ -68,12 +68,14 @@ func Start() *Engine {
 			select {
 			case w := <-e.addWatcher:
 				logrus.Info("Add watcher")
+				verifTrace("recvAdd", w.id, true)
 				watchers[w.id] = w
 				if !w.update(ctx, global) {
 					delete(watchers, w.id)
 				}
 			case id := <-e.removeWatcher:
 				logrus.Info("Remove watcher")
+				verifTrace("recvRemove", id, watchers[id] != nil)
 				// The watcher may already be gone: it failed, was cancelled before or was hung up.
 				if w, has := watchers[id]; has {
 					w.close()
@@ -85,11 +87,14 @@ func Start() *Engine {
 				logrus.Infof("-> %s", req.expr)
 				value, err := req.expr.Eval(ctx, global)
 				if err != nil {
+					verifTrace("ackSend", 0, false)
 					req.failed <- err
 					continue
 				}
+				verifTrace("ackSend", 0, true)
 				req.failed <- nil
 				global = global.With(Root, value)
+				verifTrace("install", 0, true)
 				for i, w := range watchers {
 					logrus.Infof("Update watcher %d", i)
 					if !w.update(ctx, global) {
@@ -98,9 +103,11 @@ func Start() *Engine {
 				}
 			case <-e.stop:
 				logrus.Infof("Stop")
+				verifTrace("stop", 0, true)
 				return
 			case <-e.hangup:
 				logrus.Infof("Hangup")
+				verifTrace("hangup", 0, true)
 				closeAllWatchers()
 			}
 		}
